@@ -380,15 +380,17 @@ async fn data_flood_exact(case: &serde_json::Value, rep: Arc<Mutex<Report>>) {
             Ok(())
         });
         pipe::release(&ba, &hs);
-        let hdr = |kind: u16| (kind | 0b0010_0000_0000_0000).to_le_bytes(); // CONNECT side, stream 0
+        // CONNECT side; the low bits are the reusable stream the frame is addressed to (the capability has two)
+        let hdr = |kind: u16, s: u16| (kind | 0b0010_0000_0000_0000 | s).to_le_bytes();
         let mut bytes = vec![];
         for f in case["frames"].as_array().unwrap() {
+            let s = f["s"].as_u64().unwrap_or(0) as u16;
             match f["k"].as_str().unwrap() {
-                "open" => bytes.extend(hdr(0)),
-                "close" => bytes.extend(hdr(0b1000_0000_0000_0000)),
+                "open" => bytes.extend(hdr(0, s)),
+                "close" => bytes.extend(hdr(0b1000_0000_0000_0000, s)),
                 _ => {
                     let l = f["len"].as_u64().unwrap() as u16;
-                    bytes.extend(hdr(0b0100_0000_0000_0000));
+                    bytes.extend(hdr(0b0100_0000_0000_0000, s));
                     bytes.extend(l.to_le_bytes());
                     bytes.extend(vec![0x5au8; l as usize]);
                 }
